@@ -82,14 +82,18 @@ CLAIMED['C06'] = dict(
     text='Executable model of register/unregister/set_target_info/_get_names in Python statement order; invariant Inv (name map = graph of the collector map + target_info iff set, keys distinct) '
          'proved for every history (inv_run, no_double_claim_run), raising calls are frames (register_clash_is_frame, targetinfo_clash_is_frame), a clash raises iff a name is taken, '
          'unregister_releases_exactly, suffix table = the table in the property statement (suffix_table_is_spec). The suffix table and loop shape are re-extracted each run; ~1.4·10^4 histories '
-         '(exhaustive depth 3 over a clash-rich alphabet + random + built-in classes) compared after every step, with an independent claims oracle on the real registry.',
-    note='Trusted: Lean kernel; describe()/collect() of a collector are data of the model; extractor; sampling correspondence.',
+         '(exhaustive depth 3 over a clash-rich alphabet + random + built-in classes) compared after every step, with an independent claims oracle on the real registry. '
+         'Frame clause also for the two other ways in: a built-in metric constructor that raises leaves the registry as it was (ctor_rejected_is_frame; T1: no constructor can raise '
+         'after the base constructor registered it) and code outside the registry mutating a target-info dict it passed in or was handed is a frame (caller_dict_mutation_is_frame; T1: copies '
+         'stored and handed out); ~900 constructor / caller-dict cases judged by registry snapshots on the real code.',
+    note='Trusted: Lean kernel; describe()/collect() of a collector are data of the model; extractor; sampling correspondence. The class-specific argument checks of a constructor are an opaque Boolean of the model (construct); defects F36/F37 found by these streams were repaired in /repo (28ed762, ab4e052).',
     ref='DESIGN.md 5 C06')
 CLAIMED['C07'] = dict(
     text='collect_exact (target info, then every registered collector once in registration order, nothing from unregistered ones — for every history), restricted_metric_spec, '
          'restricted_is_filter (restricted collect is a permutation of the per-sample-name filter of the full collection keeping name, type, help and unit, empty families dropped) under the '
          'explicit precondition ClaimsCover, restricted_calls_only_claimants. Real registries × name subsets (exhaustive for ≤ 8 names + random) judged by an independent filter oracle with '
-         'call counting.',
+         'call counting. The three built-in collectors (gc/platform/process) are modelled on top of the family constructors (Props/C07Builtins: builtin_collectors_claims_cover, '
+         'restricted_is_filter_default_registry, gc_collect_exact, platform_python_info, process_collect_exact), re-extracted from their source each run and run against fake gc/platform//proc readings.',
     note='ClaimsCover (a collector only emits sample names it claimed) is a precondition of restricted_is_filter: proved for all built-in metric classes (builtin_claims_cover), false for collectors '
          'and for every collector built with the eight metrics_core family constructors (Props/C07Families: family_sample_names_claimed, family_ctor_claims_cover, restricted_is_filter_family_collectors; metrics_core.py is modelled and re-extracted), false for collectors without describe() under auto_describe off = known finding C07:undescribed-collector-not-restrictable. http_name_param links C17.',
     ref='DESIGN.md 5 C07')
@@ -97,7 +101,8 @@ CLAIMED['C10'] = dict(
     text='Byte-level model of MmapedDict (layout, padding, doubling loop, positions, the three readers) with layout arithmetic re-extracted from mmap_dict.py; theorems for all write/read/reopen '
          'histories, all key lengths and all bit patterns: WF invariant, step refinement to an insertion-ordered map (inv_step, abs_step, run_refines), read_all_eq_spec, reader_agrees, '
          'reopen_preserves, growth_terminates, first-write order and last-write-wins. Real store vs model on histories over keys of every length mod 8, multi-byte keys, growth with small and real '
-         'initial size, NaN payloads/-0.0/subnormals compared as raw bytes.',
+         'initial size, NaN payloads/-0.0/subnormals compared as raw bytes; writes that compare equal to the stored pair but differ in bits (signed zeros), inherited handles (a second handle on the '
+         'file opened mid-history and closed later, as a forked child does) and files re-created under the same name with the same used-bytes header are part of every run.',
     note='Assumption Fits: the file stays below 2^31 bytes (the header is a signed 32-bit int; the real code raises struct.error beyond — observed once, not reproduced per run). Trusted: struct '
          'little-endian layout, ftruncate zero-extension, UTF-8 facts from Lean core; extractor; sampling correspondence.',
     ref='DESIGN.md 5 C10')
